@@ -80,6 +80,10 @@ def param_fields(ci, depth=0) -> Dict[str, str]:
             bmap = param_fields(base, depth + 1)
             pairs = list(zip(bparams, args)) + [(k.arg, k.value) for k in x.keywords if k.arg]
             for bp, a in pairs:
+                if isinstance(a, ast.Name) and a.id not in params:
+                    # a local bound once in the constructor (`operands = [left, right]`) stands for its value
+                    binds = [s.value for s in ast.walk(init) if isinstance(s, ast.Assign) and len(s.targets) == 1 and isinstance(s.targets[0], ast.Name) and s.targets[0].id == a.id]
+                    a = binds[0] if len(binds) == 1 else a
                 elts = a.elts if isinstance(a, (ast.List, ast.Tuple)) else [a]
                 for e in elts:
                     if isinstance(e, ast.Name) and e.id in params and bp in bmap and e.id not in out:
